@@ -136,7 +136,7 @@ def run_many(exe, jobs, timeout_s, wall, workers=None):
 # buffers from libc malloc whatever the DCtx's allocator) and ZSTD_generateSequences.
 BYPASS_FREE_SCEN = ("simple_api", "simple_dict_api", "train_", "thr_opt_", "seekable_")
 BYPASS_OK_CALLS = ("createCCtxParams", "freeCCtxParams", "createThreadPool", "freeThreadPool")
-SHARED_POOL_SCEN = ("mt2_threadpool", "thr_threadpool", "mt3_refpool")
+SHARED_POOL_SCEN = ("mt2_threadpool", "thr_threadpool", "mt3_refpool", "randx_")
 
 
 def bypass_events(d):
@@ -152,8 +152,8 @@ def bypass_events(d):
         elif c == "]":
             cur = None
         elif c in "an" and cur is not None and cur not in BYPASS_OK_CALLS:
-            if sc.startswith(SHARED_POOL_SCEN) and cur == "compress":   # POOL_resize of the caller's pool, through the pool's allocator
-                continue
+            if sc.startswith(SHARED_POOL_SCEN) and cur == "compress" and int(t.split(":")[1]) <= 1024:
+                continue   # POOL_resize of the caller's pool (array of thread handles), through the pool's own (default) allocator
             res.append((cur, t))
     return res
 
@@ -449,7 +449,8 @@ def compare(calls, live, mres, opmap=None, check_live=True, nostatus=()):
 BORROW_TIED = ("refddict_",)
 BOPMAP = {"createDCtx": lambda c: "1", "freeDCtx": lambda c: "2", "refDDict": lambda c: "3:%d,%d" % (c["ps"][0], c["natt"]),
           "decompressDCtx": lambda c: "4", "DCtx_reset_params": lambda c: "5",
-          "createDDict": lambda c: "6:%d,%d" % (c["ps"][0], c["ps"][1]), "freeDDict": lambda c: "7:%d" % c["ps"][0]}
+          "createDDict": lambda c: "6:%d,%d" % (c["ps"][0], c["ps"][1]), "freeDDict": lambda c: "7:%d" % c["ps"][0],
+          "DCtx_loadDictionary": lambda c: "8:%d,0" % c["ps"][0], "dstream": lambda c: "9:%d,0" % (1 + min(1, c["natt"]))}
 
 
 def tie_borrow(mexe, cases, scratch, tag):
@@ -488,8 +489,10 @@ def tie_borrow(mexe, cases, scratch, tag):
 
 
 # legacy stream decoders (coq/Mem/AllocLegacy.v): scenarios replayed through AllocLegacy.run_lops
-LEGACY_TIED = ("legacy_v07", "legacy_switch", "leg4_v04", "leg4_versions")
-LOPMAP = {"createDCtx": lambda c: "1", "freeDCtx": lambda c: "2", "lstream": lambda c: "3:0,0"}
+LEGACY_TIED = ("legacy_v07", "legacy_switch", "legacy_versions", "legacy_oneshot", "leg4_v04", "leg4_versions", "leg4_oneshot")
+LOPMAP = {"createDCtx": lambda c: "1", "freeDCtx": lambda c: "2", "lstream": lambda c: "3:0,0",
+          # round 3: a modern frame streamed on the same DCtx (1 = the buffer was kept, 2 = an allocation attempt was seen), a legacy frame decoded in one call
+          "dstream": lambda c: "4:%d,0" % (1 + min(1, sum(1 for e in c["cev"] if e[0] == "A"))), "decompressDCtx": lambda c: "5"}
 
 
 def tie_legacy(mexe, cases, scratch, tag):
@@ -746,12 +749,12 @@ def run(ctx):
     ctx.notes["scenarios"] = len(scens)
     ctx.notes["exhaustive_over_k_for_every_scenario"] = True
     # 2. multithreaded scenarios again (the allocation order there depends on the thread schedule)
-    mt = [(n, h) for n, h in scens if n.startswith(("mt_", "mt2_", "thr_mt_", "thr_threadpool", "train_opt")) and not (ctx.quick and h)]
+    mt = [(n, h) for n, h in scens if n.startswith(("mt_", "mt2_", "mt3_", "copy2_mt", "thr_mt_", "thr_threadpool", "train_opt")) and not (ctx.quick and h)]
     for rep in range(2 if ctx.quick else 15):
         b.process([["sweep", n] for n, h in mt], "mt%d" % rep, timeout_s=40 if ctx.quick else 90, wall=900, tie=False)
     core.log("C13: + MT repeats: %.1fs" % (time.time() - t0))
     # 2a. more random histories: the rand_* scenarios again with other sequence seeds (every k each)
-    rnd = [(n, h) for n, h in scens if n.startswith("rand_")]
+    rnd = [(n, h) for n, h in scens if n.startswith(("rand_", "randx_"))]
     for i in range(1 if ctx.quick else 25):
         RSEED[0] = ctx.seed * 1000 + 1 + i
         b.process([["sweep", n] for n, h in rnd], "rand%d" % i, timeout_s=40 if ctx.quick else 90, wall=900, tie=False)
